@@ -222,9 +222,27 @@ func c03(r *core.Run) {
 				storeStopped = op.Instr
 			}
 		}
+		// when the close protocol is written out in Shutdown itself, its first step (closing flag)
+		// stands for "closeFn starts" and its last step (close of the in-channel) for "closeFn is done"
+		var closeEnd ssa.Instruction
+		if a.Close == fn {
+			for _, ac := range core.FieldAccesses([]*ssa.Function{fn}, func(f core.Field) bool { return f == a.WorkQueue }) {
+				if ac.Kind == "store" && storeShape(ac.Instr.(*ssa.Store).Val, a) == "nil" {
+					closeCall = ac.Instr
+				}
+			}
+			for _, c := range core.Calls(fn) {
+				if core.CalleeName(c) == "builtin:close" {
+					if f, ok := core.LoadedField(c.Common().Args[0]); ok && f == a.InCh {
+						closeEnd = c
+					}
+				}
+			}
+		}
 		for _, c := range core.Calls(fn) {
-			if c.Common().StaticCallee() == a.Close {
+			if c.Common().StaticCallee() == a.Close && a.Close != fn {
 				closeCall = c
+				closeEnd = c
 			}
 			if cal := c.Common().StaticCallee(); cal != nil && cal.String() == "(*sync.WaitGroup).Wait" {
 				if f, ok := core.FieldOf(c.Common().Args[0]); ok && f == a.WG && !core.IsGo(c) && !core.IsDefer(c) {
@@ -242,12 +260,12 @@ func c03(r *core.Run) {
 			}
 		}
 		r.Check(onSuccess, "S2", fname, "closeFn-on-CAS-success", posOf(p, closeCall), "closeFn only on the success edge of the stop CAS (connection closed once)", "closeFn not guarded by the stop CAS's success edge")
-		r.Check(closeCall != nil && wait != nil && core.Dominates(closeCall, wait), "S2", fname, "closeFn-dom-wg.Wait", posOf(p, wait), "workers are awaited (synchronously, unconditionally) after the close protocol", "Shutdown does not synchronously wait for the workers after closing (no plain WaitGroup.Wait on the worker group dominated by closeFn)")
+		r.Check(closeCall != nil && closeEnd != nil && wait != nil && core.Dominates(closeEnd, wait), "S2", fname, "closeFn-dom-wg.Wait", posOf(p, wait), "workers are awaited (synchronously, unconditionally) after the close protocol", "Shutdown does not synchronously wait for the workers after closing (no plain WaitGroup.Wait on the worker group dominated by closeFn)")
 		r.Check(wait != nil && storeStopped != nil && core.Dominates(wait, storeStopped), "S2", fname, "wg.Wait-dom-Store(stopped)", posOf(p, storeStopped), "the service is declared stopped only after every worker has exited", "Store(stopped) is not dominated by a synchronous WaitGroup.Wait: a restart could overlap workers of the previous run")
 		// per-run fields cleared after the wait
 		for _, ac := range core.FieldAccesses([]*ssa.Function{fn}, func(f core.Field) bool { return f == a.NC || f == a.InCh || f == a.RWork || f == a.WorkQueue }) {
-			if ac.Kind == "store" {
-				r.Check(wait != nil && core.Dominates(wait, ac.Instr), "S2", fname, "clear("+ac.F.String()+")-after-wg.Wait", p.InstrPos(ac.Instr), "per-run field cleared only after the workers are gone", "per-run field cleared while workers may still run")
+			if ac.Kind == "store" && ac.Instr != closeCall {
+				r.Check(wait != nil && core.Dominates(wait, ac.Instr), "S2", fname, "clear("+a.label(ac.F)+")-after-wg.Wait", p.InstrPos(ac.Instr), "per-run field cleared only after the workers are gone", "per-run field cleared while workers may still run")
 			}
 		}
 		// every return on the success path is dominated by Store(stopped)
@@ -361,6 +379,9 @@ func c03(r *core.Run) {
 		r.Check(connClose != nil && bcast != nil && p.DominatesIn(fn, bcast, connClose), "S3", fname, "Conn.Close-after-Broadcast", posOf(p, connClose), "connection closed after workers were told to stop", "connection not closed in closeFn after the broadcast")
 		r.Check(chClose != nil && connClose != nil && p.DominatesIn(fn, connClose, chClose), "S3", fname, "close(inCh)-after-Conn.Close", posOf(p, chClose), "in-channel closed after the connection (no send on a closed channel by the NATS client), ending the listener loop", "in-channel not closed after Conn.Close: the listener never ends or the client sends on a closed channel")
 		for _, c := range callsTo(root, fn) {
+			if fn == shutdown {
+				break // the protocol is part of Shutdown, whose single entry is guarded by the stop CAS (S1, S2)
+			}
 			r.Check(c.Parent() == shutdown && !core.IsGo(c), "S3", core.FuncName(c.Parent()), "calls-closeFn", p.InstrPos(c), "closeFn called from Shutdown only", "closeFn called from outside Shutdown: the connection could be closed twice")
 		}
 		for _, c := range invokes(root, "Conn", "Close") {
@@ -507,10 +528,10 @@ func c03(r *core.Run) {
 			continue
 		}
 		if ac.Fn == a.Serve && firstGo != nil && core.Dominates(ac.Instr, firstGo) {
-			r.OK("N1", core.FuncName(ac.Fn), "store("+ac.F.String()+"):init", p.InstrPos(ac.Instr), "written during initialisation, before any other goroutine of this run exists")
+			r.OK("N1", core.FuncName(ac.Fn), "store("+a.label(ac.F)+"):init", p.InstrPos(ac.Instr), "written during initialisation, before any other goroutine of this run exists")
 			continue
 		}
-		r.Bad("N1", core.FuncName(ac.Fn), "store("+ac.F.String()+")", p.InstrPos(ac.Instr), "a per-run connection field is written outside serve's initialisation with no lock: publishing entry points (Reset, TokenEvent, event, reply) and Serve's own subscribe, which passed the started-check, read it concurrently -> nil-pointer panic / data race")
+		r.Bad("N1", core.FuncName(ac.Fn), "store("+a.label(ac.F)+")", p.InstrPos(ac.Instr), "a per-run connection field is written outside serve's initialisation with no lock: publishing entry points (Reset, TokenEvent, event, reply) and Serve's own subscribe, which passed the started-check, read it concurrently -> nil-pointer panic / data race")
 	}
 }
 
